@@ -60,7 +60,7 @@ def do_verify(d, checks):
     d = os.path.abspath(d)
     name = os.path.basename(d)
     prop = name.split("-")[0]
-    checks = checks or [prop]
+    checks = [prop] + [c for c in (checks or []) if c != prop]
     wt = "/tmp/sv_" + name.replace("/", "_")
     sh("git -C /repo worktree remove --force %s" % wt)
     shutil.rmtree(wt, ignore_errors=True)
